@@ -59,6 +59,9 @@ Definition round64 (m : N) (e : Z) : option (N * Z) :=
       if P53 <=? f1 then pick (q1 + 1)%Z
       else if (f1 <? P52) && (MIN_Q <? q1)%Z then pick (q1 - 1)%Z
       else (q1, (f1, c1)) in
+  (* the exponent estimate is validated, not trusted: a float comes out only if the truncated mantissa is normalised
+     (or the exponent is the smallest one); the correspondence run would show a spurious None as a disagreement *)
+  if negb (((P52 <=? fl) && (fl <? P53)) || ((q =? MIN_Q)%Z && (fl <? P52))) then None else
   let mant := if round_up fl c then fl + 1 else fl in
   let '(mant, q) := if mant =? P53 then (P52, (q + 1)%Z) else (mant, q) in
   if (MAX_Q <? q)%Z then None else Some (mant, q).
